@@ -80,6 +80,7 @@ def gen_yaml_opts(rng, bare=False):
     return o
 
 
+PATHKINDS = ['str', 'Path', 'str', 'Path', 'rel', 'relPath', 'dotdot']
 SINKS_PATH = ['p0', 'p1']
 SINKS_STREAM = ['s0', 's1', 's2', 's3']   # StringIO, TextIOWrapper over SimRaw, FaultyStringIO, ChunkyText
 
@@ -150,17 +151,17 @@ def gen_plan(seed: int, cls: str) -> dict:
             via = 'string' if sink == 'str0' else ro.choice(['func', 'func', 'method'])
             op = {'op': 'write', 'sink': sink, 'val': vi, 'fmt': fmt, 'via': via,
                   'opts': gen_json_opts(ro) if fmt == 'json' else gen_yaml_opts(ro, knobs['alphabet'] in ('numlike', 'lookalike')),
-                  'pathkind': ro.choice(['str', 'Path']), 'passty': ro.random() < 0.8,
+                  'pathkind': ro.choice(PATHKINDS), 'passty': ro.random() < 0.8,
                   'append': (fmt == 'yaml' and sink in SINKS_STREAM and ro.random() < 0.6)}
             written.add(sink)
         elif r < 0.85:
             src = ro.choice(sorted(written))
             op = {'op': 'read', 'src': src, 'via': ro.choice(['func', 'func', 'method']),
-                  'pathkind': ro.choice(['str', 'Path'])}
+                  'pathkind': ro.choice(PATHKINDS)}
         elif r < 0.95:
             src = ro.choice(sorted(written))
             op = {'op': 'read_all', 'src': src, 'via': ro.choice(['func', 'method']),
-                  'pathkind': ro.choice(['str', 'Path'])}
+                  'pathkind': ro.choice(PATHKINDS)}
         else:
             op = {'op': 'read', 'src': ro.choice(SINKS_PATH), 'via': 'func', 'pathkind': 'str'}  # maybe absent
         ops.append(op)
@@ -177,7 +178,7 @@ def gen_plan(seed: int, cls: str) -> dict:
         for j in range(ndocs):
             chain.append({'op': 'write', 'sink': sink, 'val': ro.choice(group), 'fmt': 'yaml', 'via': ro.choice(['func', 'method']),
                           'opts': gen_yaml_opts(ro), 'pathkind': 'str', 'passty': True, 'append': j > 0})
-        chain.append({'op': 'read_all', 'src': sink, 'via': ro.choice(['func', 'method']), 'pathkind': ro.choice(['str', 'Path'])})
+        chain.append({'op': 'read_all', 'src': sink, 'via': ro.choice(['func', 'method']), 'pathkind': ro.choice(PATHKINDS)})
         pos = ro.randrange(len(ops) + 1)
         ops[pos:pos] = chain
     if cls == 'faulty':
@@ -326,8 +327,15 @@ class Exec:
             self.values.append(ent)
         base = os.environ.get('VERIF_SCRATCH') or ('/dev/shm' if os.path.isdir('/dev/shm') else tempfile.gettempdir())
         self.tmpdir = tempfile.mkdtemp(prefix='pane_c19_', dir=base)
+        os.mkdir(os.path.join(self.tmpdir, '~'))
+        os.mkdir(os.path.join(self.tmpdir, 'sub'))
+        os.mkdir(os.path.join(self.tmpdir, 'home'))
         if not self.real:
             sys.modules['pane.io'].open = self.fs.open  # the seam (module global shadows the builtin)
+            self._saved_cwd = os.getcwd()
+            self._saved_home = os.environ.get('HOME')
+            os.chdir(self.tmpdir)
+            os.environ['HOME'] = os.path.join(self.tmpdir, 'home')
         for n in SINKS_PATH + ['str0']:
             self.sinks[n] = _Sink(n)
         s0 = _Sink('s0')
@@ -347,6 +355,15 @@ class Exec:
         if mod is not None and 'open' in mod.__dict__ and not self.real:
             del mod.__dict__['open']
         self.fs.disarm()
+        if getattr(self, '_saved_cwd', None) is not None:
+            try:
+                os.chdir(self._saved_cwd)
+            except OSError:
+                pass
+            if self._saved_home is None:
+                os.environ.pop('HOME', None)
+            else:
+                os.environ['HOME'] = self._saved_home
         for s in self.sinks.values():
             if s.obj is not None:
                 try:
@@ -357,7 +374,21 @@ class Exec:
             shutil.rmtree(self.tmpdir, ignore_errors=True)
 
     def path_arg(self, name, kind):
-        p = os.path.join(self.tmpdir, name + '.txt')
+        """
+        p0 lives at <scratch>/p0.txt, p1 at <scratch>/~/p1.txt (a directory literally named '~': a path pane must not
+        'expand').  The same file is named in several legitimate ways: absolute str / Path, relative to the current
+        directory (which is the scratch directory for the duration of the run), or through a 'sub/..' detour.
+        """
+        rel = name + '.txt' if name == 'p0' else os.path.join('~', name + '.txt')
+        if self.real and kind in ('rel', 'relPath'):
+            kind = 'str'            # the real-disk class does not change the process's current directory
+        if kind == 'rel':
+            return rel
+        if kind == 'relPath':
+            return pathlib.Path(rel)
+        if kind == 'dotdot':
+            return os.path.join(self.tmpdir, 'sub', '..', rel)
+        p = os.path.join(self.tmpdir, rel)
         return pathlib.Path(p) if kind == 'Path' else p
 
     def _scratch_fds(self):
@@ -1009,7 +1040,7 @@ def shrink_candidates(plan, res):
             c = clone(plan)
             c['ops'][i]['via'] = 'func'
             yield c
-        if op.get('pathkind') == 'Path':
+        if op.get('pathkind') not in (None, 'str'):
             c = clone(plan)
             c['ops'][i]['pathkind'] = 'str'
             yield c
